@@ -77,7 +77,7 @@ CLAIMED = {
         "object (lazy harmonic basis) and a second one of the same size, one options dict reused by BVP and IVP calls, the lazily loaded Coulomb table hit by a store "
         "fault on first use and then retried - must not change a later potential. Densities (on-centre s- and p-type Gaussians inside the resolution envelope) are workload.",
         "design_ref": "DESIGN.md section 3 (C16)",
-        "note": "Bounds calibrated on this tree: accuracy 5e-3 (2e-2 without the origin node; seen 7e-5 / 2.4e-3), spread between draws max(1e-8, 0.05*tol) (seen 1e-3*tol), linearity 5*tol (seen 0.06*tol), exact core 1e-6 (seen 2.2e-8 over all grid families). "
+        "note": "Bounds calibrated on this tree: accuracy 5e-3 (2e-2 without the origin node; seen 7e-5 / 2.4e-3), spread between draws max(1e-8, 0.5*tol) (seen up to 0.08*tol in the exact-core case on linearly mapped grids), linearity 5*tol (seen 0.06*tol), exact core 1e-6 (seen 2.2e-8 over all grid families). "
         "Multi-centre molecular grids (2-3 atoms, each with its own radial size, degree and rotation; densities on the nuclei; the atoms also listed in the opposite order) are a separate submode: accuracy 3e-2 (seen 5.6e-3), "
         "exact core of the summed core models 1e-6 (seen 2e-10). Off-centre densities on an atomic grid are outside the sampled envelope; one-atom molecular grids, solver options (boundary / include_origin / remove_large_pts), p-type components along x/y/z/generic "
         "directions, caller-edited parameter arrays and held potential functions are inside it.",
